@@ -1,25 +1,17 @@
 #!/usr/bin/env python3
-"""Regenerate lean/Driver.lean (the line-protocol multiplexer) and lean/Vgi.lean (library root)
-from the files present under lean/Vgi/. Idempotent: rewrites only on change."""
-import os, re, sys
+"""Regenerate lean/lakefile.toml: library `Vgi` (every module under lean/Vgi, built separately)
+plus one native executable `vgidriver_<ID>` per lean/Vgi/Drive/<ID>.lean (each such module ends
+with a root-level `def main`). Idempotent: rewrites only on change."""
+import os, re
 root = os.path.join(os.path.dirname(os.path.abspath(__file__)), '..', 'lean')
-def write_if_changed(path, text):
-    try:
-        if open(path).read() == text: return
-    except FileNotFoundError: pass
-    open(path, 'w').write(text)
 drives = sorted(f[:-5] for f in os.listdir(os.path.join(root, 'Vgi', 'Drive')) if re.fullmatch(r'C\d+\.lean', f))
-out = ''.join(f'import Vgi.Drive.{d}\n' for d in drives)
-out += '\n/-- GENERATED by tools/gendriver.py — do not edit. `vgidriver <ID>` runs that property\'s model\non the line protocol (stdin → stdout). -/\ndef main (args : List String) : IO UInt32 := do\n  match args with\n'
+out = 'name = "Vgi"\nversion = "0.1.0"\ndefaultTargets = ["Vgi"]\n\n[[lean_lib]]\nname = "Vgi"\nglobs = ["Vgi.+"]\n'
 for d in drives:
-    out += f'  | ["{d}"] => Vgi.Drive.{d}.drive; pure 0\n'
-out += '  | _ => IO.eprintln "usage: vgidriver <property-id>"; pure 2\n'
-write_if_changed(os.path.join(root, 'Driver.lean'), out)
-mods = []
-for sub in ['', 'Model', 'Generated', 'Proofs', 'Props', 'Drive']:
-    d = os.path.join(root, 'Vgi', sub)
-    if not os.path.isdir(d): continue
-    for f in sorted(os.listdir(d)):
-        if f.endswith('.lean'):
-            mods.append('Vgi.' + (sub + '.' if sub else '') + f[:-5])
-write_if_changed(os.path.join(root, 'Vgi.lean'), ''.join(f'import {m}\n' for m in mods))
+    out += f'\n[[lean_exe]]\nname = "vgidriver_{d}"\nroot = "Vgi.Drive.{d}"\n'
+path = os.path.join(root, 'lakefile.toml')
+try:
+    same = open(path).read() == out
+except FileNotFoundError:
+    same = False
+if not same:
+    open(path, 'w').write(out)
